@@ -29,6 +29,7 @@ func init() {
 	workers["c09"] = c09Worker
 	workers["c09d"] = c09dWorker
 	workers["c09a"] = c09aWorker
+	workers["c09r"] = c09rWorker
 }
 
 // c09aWorker: worker c09a <historyfile>: runs the in-process part (deadline sweep or depth scenario) of one history
@@ -198,6 +199,14 @@ var c09Operands = []int64{3_000_000, 6_000_000, 20_000_000, 0, 1, 7, 40, 62, 63,
 
 func (c09) Generate(r *core.Rng, run int, tier string) *core.History {
 	h := &core.History{Cfg: map[string]int64{}, Flags: map[string]bool{}, Strs: map[string]string{}}
+	if run%48 == 5 {
+		// the REAL timer of SetContext (everything else runs on the virtual clock): MaxDuration against a host
+		// context that is unlimited, expires later, or expires earlier
+		h.Strs["sub"] = "realtimer"
+		h.Strs["key"] = []string{"parent-later", "background", "parent-earlier"}[(run/48)%3]
+		h.Events = []core.Event{{Ev: "program", Text: core.Pick(r, []string{`for true { }`, `x = 0; for true { x = x + 1 }`, `for true { for i = 1000 { i } }`})}}
+		return h
+	}
 	if run%12 == 11 {
 		p := c09NoPoll[(run/12)%len(c09NoPoll)]
 		h.Strs["sub"], h.Strs["key"] = "nopoll", p.key
@@ -293,6 +302,8 @@ func (c c09) Execute(h *core.History) *core.Outcome {
 	switch h.Strs["sub"] {
 	case "nopoll":
 		return c.execNoPoll(h)
+	case "realtimer":
+		return c.execRealTimer(h)
 	case "deadline", "depth":
 		return c.inChild(h)
 	default:
@@ -665,4 +676,70 @@ func fatalLines(stderr string) string {
 		return "(no fatal error line on stderr)"
 	}
 	return strings.Join(keep, " | ")
+}
+
+// c09rWorker: worker c09r <parent: background|parent-later|parent-earlier> <program>: evaluates under a REAL
+// MaxDuration of 150 ms; the host context has no deadline, one of 25 s, or one of 50 ms. Prints elapsed ms.
+func c09rWorker(args []string) int {
+	world.Install(nil)
+	ctx := context.Background()
+	var cancel context.CancelFunc = func() {}
+	switch args[0] {
+	case "parent-later":
+		ctx, cancel = context.WithTimeout(ctx, 25*time.Second)
+	case "parent-earlier":
+		ctx, cancel = context.WithTimeout(ctx, 50*time.Millisecond)
+	}
+	defer cancel()
+	opts := repl.EvalStringOptions()
+	opts.MaxDepth = 100000
+	opts.MaxDuration = 150 * time.Millisecond
+	start := time.Now()
+	_, errs, _ := repl.EvalStringWithOption(ctx, opts, args[1])
+	_ = json.NewEncoder(os.Stdout).Encode(map[string]any{"elapsed_ms": time.Since(start).Milliseconds(), "errs": truncAll(errs)})
+	return 0
+}
+
+// execRealTimer: the only place where real time is judged, with a margin of two orders of magnitude: the evaluation
+// is limited to 150 ms (or 50 ms by the host), the verdict is "came back within 12 s".
+func (c09) execRealTimer(h *core.History) *core.Outcome {
+	o := &core.Outcome{}
+	st := &o.Stats
+	prog := h.Events[len(h.Events)-1].Text
+	if len(h.Events) == 0 || h.Events[0].Ev != "program" {
+		st.Shape = "empty"
+		return o
+	}
+	self, _ := os.Executable()
+	ctx, cancel := context.WithTimeout(context.Background(), 60*time.Second)
+	defer cancel()
+	cmd := exec.CommandContext(ctx, self, "worker", "c09r", h.Strs["key"], prog)
+	var ob, eb bytes.Buffer
+	cmd.Stdout, cmd.Stderr = &ob, &eb
+	err := cmd.Run()
+	st.Children = 1
+	st.Fault("real_timer_deadline")
+	var rep struct {
+		Elapsed int64    `json:"elapsed_ms"`
+		Errs    []string `json:"errs"`
+	}
+	switch {
+	case ctx.Err() != nil:
+		o.Viol = &core.Violation{Oracle: "returns-within-real-deadline", Sig: "C09|realtimer|" + h.Strs["key"] + "|hung",
+			Detail: fmt.Sprintf("%q with MaxDuration=150ms (host context: %s) did not return within 60 s", prog, h.Strs["key"])}
+	case err != nil:
+		o.Viol = &core.Violation{Oracle: "process-survives", Sig: "C09|realtimer|" + h.Strs["key"] + "|died", Detail: fmt.Sprintf("%q: %v %s", prog, err, fatalLines(eb.String()))}
+	case json.Unmarshal(ob.Bytes(), &rep) != nil:
+		st.Discarded = true
+		st.Panic("bad c09r output " + trunc(ob.String(), 100))
+	case rep.Elapsed > 12000:
+		o.Viol = &core.Violation{Oracle: "returns-within-real-deadline", Sig: "C09|realtimer|" + h.Strs["key"] + "|late",
+			Detail: fmt.Sprintf("%q with MaxDuration=150ms (host context: %s) returned after %d ms", prog, h.Strs["key"], rep.Elapsed)}
+	case !strings.Contains(strings.Join(rep.Errs, " "), "deadline exceeded"):
+		o.Viol = &core.Violation{Oracle: "fired-deadline-reported", Sig: "C09|realtimer|" + h.Strs["key"] + "|not-reported",
+			Detail: fmt.Sprintf("%q with MaxDuration=150ms (host context: %s) returned %v instead of a deadline error", prog, h.Strs["key"], rep.Errs)}
+	}
+	st.Nontrivial = true
+	st.Shape = shapeOf([]string{"realtimer", h.Strs["key"]}) // elapsed time is deliberately not part of the record
+	return o
 }
